@@ -131,6 +131,23 @@ package transport
 //@   requires !isnil(conn) && !isnil(serializer) && !isnil(logger)
 //@   ensures [send-queue-bounded] is(result, *websocketPeer) && result.(*websocketPeer) != nil && chancap(result.(*websocketPeer).wr) == outQueueSize
 
+// The websocket sender ends only when a write to the connection failed, the
+// keep-alive gave up or the peer was closed - never because one message could
+// not be serialised: that message alone is dropped and the following ones are
+// still sent.
+//@ func (w *websocketPeer) sendHandler
+//@   props C15 C04
+//@   requires w != nil
+//@   lastresult WriteMessage
+//@   returnsite : [sender-ends-only-on-write-failure-or-close] !isnil(lastresult(WriteMessage)) || selected(method(w.ctxSender, "Done"))
+
+//@ func (w *websocketPeer) sendHandlerKeepAlive
+//@   props C15 C04
+//@   requires w != nil
+//@   lastresult WriteMessage
+//@   callcount Close arg0 iface
+//@   returnsite : [sender-ends-only-on-write-failure-keepalive-or-close] !isnil(lastresult(WriteMessage)) || selected(senderDone) || calls(Close, w.conn) > old(calls(Close, w.conn))
+
 // Peers are built by their constructors only; these fields are set there.
 //@ immutable websocketPeer conn, serializer, payloadType, closed, rd, wr, cancelSender, ctxSender, recvDone, writerDone, log
 //@ fieldinv websocketPeer.conn : !isnil(v)
